@@ -47,6 +47,9 @@ CLAIMED = {
  "C14": ("TLA+: pickle/copy/deepcopy are stuttering steps of the Session state machine on the abstraction (Trace.J_copy: same class, fields, derived instant and offset, duration components, interval end-points and flag, zone); TLC trace validation over values that use the fragile hidden state",
          "every recorded pickle (protocols 0..5), copy.copy and copy.deepcopy of DateTimes on ambiguous wall times with fold 0 and 1 in every zone that has overlaps, naive/UTC/fixed-offset DateTimes, Dates, Times, Durations with every subset of components and either sign, Intervals (forward, inverted, absolute; DateTime and Date end-points, end-points on ambiguous times), Timezone and FixedTimezone objects is judged by TLC as a stuttering step on the projected abstraction, plus == where the property demands it",
          "TLC, tz database as above (the instant of a copy is derived by the spec from its wall fields and fold), harness projection", "7 C14"),
+ "C19": ("TLA+ state machine of the range() generator loop (MC_Range: no drift w.r.t. the closed form, inside, strictly monotone as an action property, termination under weak fairness) + closed form Kth (OpsRange); TLC trace validation of recorded ranges in lock-step with the closed form",
+         "TLC model-checks the generator loop on small intervals over the synthetic zones (starts on days 29-31 with month/year steps, DST days, inverted and absolute intervals) for drift-freedom, containment, strict monotonicity and termination (liveness, no state constraint); every recorded Interval.range()/iteration - month-end starts x month/year steps 1..12, ranges across transitions of every zone x 8 units, forward/inverted/absolute, Date/naive/UTC, up to 10^4 steps - is judged by TLC: sampled values (first, last, middle) against the closed form computed from the start, the stopping point (last not beyond, next beyond), end yielded iff reachable, containment; `x in interval` against start <= x <= end",
+         "TLC, tz database as above, harness projection; no verdict where an end-point or the stopping point sits on an ambiguous wall time of a shared tzinfo (CPython orders those by wall clock) or the range crosses a wholly skipped day (MC_Range shows monotonicity and C04 are incompatible there)", "7 C19"),
 }
 NOT_YET = "check not built yet in this round (planned: see DESIGN.md section 7)"
 
